@@ -308,6 +308,7 @@ func c06Run(w *W) {
 			account("ParseCommands", src, sum)
 			if sum.deadlock == nil && sum.blocked == nil {
 				c06FreeRun(w, "ParseCommands", src, sum)
+				c06DelayRuns(w, "ParseCommands", src, c06ParseBody(src, nil), sum, false)
 			}
 			// the same input with the reader failing from rune k on (sticky) and once at rune k (transient), all schedules:
 			// whatever the interleaving, the call returns
@@ -336,6 +337,7 @@ func c06Run(w *W) {
 								w.Violation("fault-swallowed", cc, fmt.Sprintf("ParseCommands(%q) with the reader failing at rune %d: nil error although the fault was delivered (schedule %v)", src, k, sch))
 							}
 						}
+						c06DelayRuns(w, fmt.Sprintf("ParseCommands/fault@%d/once=%v", k, once), src, c06FaultBody(src, k, once), fsum, true)
 					}
 				}
 			}
@@ -373,6 +375,7 @@ func c06Run(w *W) {
 					cc.Schedule = fsum.deadlock
 					w.Violation("deadlock", cc, fmt.Sprintf("ParseCommands(%q) with the reader failing at rune %d (transient=%v): deadlock — the call never returns under schedule %v", src, k, once, fsum.deadlock))
 				}
+				c06DelayRuns(w, fmt.Sprintf("ParseCommands/fault@%d/once=%v", k, once), src, c06FaultBody(src, k, once), fsum, true)
 			}
 		}
 	}
@@ -471,6 +474,33 @@ func c06Run(w *W) {
 	if w.shard == 0 {
 		c06RacePass(w)
 	}
+}
+
+// c06DelayRuns: one free run per hooked point with the goroutine that reaches it held back (delayRuns in e2.go).
+// Every observation must be one the exhaustive exploration produced; for a reader fault, a nil error after the fault
+// was delivered is a violation in its own right.
+func c06DelayRuns(w *W, kind, src string, body func(afterReturn *bool) string, sum c06Summary, fault bool) {
+	if len(sum.outcomes) == 0 || sum.deadlock != nil || sum.blocked != nil {
+		return
+	}
+	reported := false
+	h := delayRuns(body, func(point int, o string) {
+		w.Count("delay_runs", 1)
+		if reported {
+			return
+		}
+		cc := c06Case{Kind: fmt.Sprintf("%s/delay@%d", kind, point), Src: src}
+		if fault && strings.HasPrefix(o, "err=<nil>") && strings.Contains(o, "delivered=true") {
+			reported = true
+			w.Violation("fault-swallowed", cc, fmt.Sprintf("%s(%q): with the goroutine that reaches hooked point %d held back (free run), the call returns a nil error although the reader's fault was delivered", kind, src, point))
+			return
+		}
+		if _, ok := sum.outcomes[o]; !ok && sum.complete && !c06SameModuloConsumed(o, sum.outcomes) {
+			reported = true
+			w.Violation("model-misses-behaviour", cc, fmt.Sprintf("%s(%q): with the goroutine that reaches hooked point %d held back (free run) the result is one that no explored schedule produced — synchronisation the scheduler model does not know: %s", kind, src, point, o))
+		}
+	})
+	_ = h
 }
 
 // c06FreeRun: conformance of the scheduler model — every result seen in a
@@ -742,8 +772,30 @@ func init() {
 			}
 			installHooks()
 			body := c06ParseBody(c.Src, nil)
-			if c.Kind == "Eval" {
+			if strings.HasPrefix(c.Kind, "Eval") {
 				body = c06EvalBody(c.Src)
+			}
+			fault := false
+			if i := strings.Index(c.Kind, "/fault@"); i >= 0 {
+				var k int
+				var once bool
+				if _, err := fmt.Sscanf(c.Kind[i:], "/fault@%d/once=%t", &k, &once); err == nil {
+					body, fault = c06FaultBody(c.Src, k, once), true
+				}
+			}
+			if strings.Contains(c.Kind, "/delay@") {
+				sum := c06Explore(body, -1, 20000)
+				bad := ""
+				delayRuns(body, func(point int, o string) {
+					fmt.Printf("%s(%q) with hooked point %d held back: %s\n", c.Kind, c.Src, point, o)
+					if _, ok := sum.outcomes[o]; bad == "" && (fault && strings.HasPrefix(o, "err=<nil>") && strings.Contains(o, "delivered=true") || !ok && sum.complete && !c06SameModuloConsumed(o, sum.outcomes)) {
+						bad = fmt.Sprintf("point %d: %s", point, o)
+					}
+				})
+				if bad != "" {
+					return fmt.Errorf("delay run: %s", bad)
+				}
+				return nil
 			}
 			r := runOnce(c.Schedule, body)
 			fmt.Printf("%s(%q) under schedule %v:\n  steps: %s\n  result: %s\n  deadlock=%v blocked=%v alive-at-return=%d post=%v stuck=%d\n", c.Kind, c.Src, c.Schedule, traceString(r), r.obs, r.deadlock, r.blocked, r.alive, r.post, r.stuck)
